@@ -594,6 +594,11 @@ impl Batch {
             + (MAX_PROOF_RECURSION - 1) * CompressedProofGenerator::PROOF_LENGTH
             + 2; // P and Q masks
 
+        // Verification harness (feature `ipa-verif`, test builds only): note that a batch was
+        // handed to the proof step, so a suite can count validations per batch. No effect otherwise.
+        #[cfg(all(test, feature = "ipa-verif"))]
+        ipa_verif_hook::c16_note_validate(ctx.gate(), batch_index);
+
         let proof_ctx = ctx.narrow(&Step::GenerateProof);
 
         let record_id = RecordId::from(batch_index);
